@@ -407,3 +407,6 @@ def simplify(scenario):
         c = copy.deepcopy(scenario)
         c["envs"][0]["state"]["feature"] = False
         yield c
+
+
+generate = gen_epi.with_backtest_driver(generate, 0.2)
